@@ -791,6 +791,7 @@ func Run(r *core.Run) {
 	workers := runtime.NumCPU()
 	core.ParallelFor(len(c.cases), workers, func(i int) { c.exec(c.cases[i]) })
 	c.report()
+	runOrders(r)
 
 	r.Set("evaluations", int(atomic.LoadInt64(&c.evals)))
 	r.Set("distinct_nontrivial", r.NDistinct("cases"))
